@@ -98,9 +98,65 @@ enum Rec {
     Error(String),
     Panic(String),
     Malformed(Vec<u8>),
+    /// the C entry point disagrees with the Rust API on this pair
+    Ffi(String),
+}
+
+thread_local! {
+    /// the caller's output struct for the C entry point, deliberately re-used from call to call (as a
+    /// C caller with one Buffer variable would): whatever an earlier call left in it must not be
+    /// mistaken for this call's result
+    static FFI_OUT: std::cell::RefCell<rln::ffi::Buffer> = const { std::cell::RefCell::new(rln::ffi::Buffer { ptr: std::ptr::null(), len: 0 }) };
+}
+
+/// the same recovery through the C entry point; Err(description) when it disagrees with the Rust API
+fn recover_ffi_agrees(m1: &[u8], m2: &[u8], rust: &Result<Vec<u8>, String>) -> Result<(), String> {
+    let (b1, b2) = (rln::ffi::Buffer { ptr: m1.as_ptr(), len: m1.len() }, rln::ffi::Buffer { ptr: m2.as_ptr(), len: m2.len() });
+    FFI_OUT.with(|cell| {
+        let mut out = cell.borrow_mut();
+        let flag = rln::ffi::recover_id_secret(rln() as *const rln::public::RLN, &b1 as *const rln::ffi::Buffer, &b2 as *const rln::ffi::Buffer, &mut *out as *mut rln::ffi::Buffer);
+        match rust {
+            Ok(want) => {
+                if !flag {
+                    return Err(format!("the C entry point reports failure where the Rust API recovers ({} bytes)", want.len()));
+                }
+                let got: &[u8] = if out.len == 0 { &[] } else { unsafe { std::slice::from_raw_parts(out.ptr, out.len) } };
+                if got != &want[..] {
+                    return Err(format!("the C entry point hands back {} bytes, the Rust API writes {} bytes (caller's Buffer struct re-used from the previous call)", got.len(), want.len()));
+                }
+                Ok(())
+            }
+            Err(_) => {
+                if flag {
+                    Err("the C entry point reports success where the Rust API returns an error".into())
+                } else {
+                    Ok(())
+                }
+            }
+        }
+    })
 }
 
 fn recover(m1: &[u8], m2: &[u8]) -> Rec {
+    let r = recover_rust(m1, m2);
+    // both surfaces of the recovery entry point (a panic inside the C function would abort; the Rust
+    // API is asked first and the C entry point only when it returned)
+    let rust: Option<Result<Vec<u8>, String>> = match &r {
+        Rec::Secret(g) => Some(Ok(crate::models::field::big_to_le32(g).to_vec())),
+        Rec::Empty => Some(Ok(vec![])),
+        Rec::Malformed(b) => Some(Ok(b.clone())),
+        Rec::Error(e) => Some(Err(e.clone())),
+        Rec::Panic(_) | Rec::Ffi(_) => None,
+    };
+    if let Some(rust) = rust {
+        if let Err(e) = recover_ffi_agrees(m1, m2, &rust) {
+            return Rec::Ffi(e);
+        }
+    }
+    r
+}
+
+fn recover_rust(m1: &[u8], m2: &[u8]) -> Rec {
     let mut out = vec![];
     match guarded(|| rln().recover_id_secret(Cursor::new(m1.to_vec()), Cursor::new(m2.to_vec()), &mut out).map_err(|e| e.to_string())) {
         Ok(Ok(())) => {
@@ -184,6 +240,9 @@ pub fn check_case(ctx: &Ctx, c: &Case, o: &mut Outcome) {
                         vfail!(o, "recover_id_secret panicked: {e}");
                         return;
                     }
+                    Rec::Ffi(e) => {
+                        vfail!(o, "recover_id_secret: {e}");
+                    }
                     Rec::Malformed(b) => {
                         vfail!(o, "recover_id_secret wrote {} bytes that are not a canonical field element", b.len());
                         return;
@@ -197,6 +256,7 @@ pub fn check_case(ctx: &Ctx, c: &Case, o: &mut Outcome) {
             Rec::Error(e) => vfail!(o, "recovery across different external nullifiers returned an error instead of 'no secret': {e}"),
             Rec::Panic(e) => vfail!(o, "recover_id_secret panicked: {e}"),
             Rec::Malformed(_) => vfail!(o, "recover_id_secret wrote malformed output"),
+            Rec::Ffi(e) => vfail!(o, "recover_id_secret across different external nullifiers: {e}"),
         },
         Variant::DifferentMessageId => {
             // only the nullifier relation is specified here; the call must not crash
@@ -215,6 +275,7 @@ pub fn check_case(ctx: &Ctx, c: &Case, o: &mut Outcome) {
                 Rec::Secret(g) => vfail!(o, "degenerate pair (equal x) produced a secret {g} instead of an error / empty result"),
                 Rec::Panic(e) => vfail!(o, "recover_id_secret crashed on a degenerate pair (equal x): {e}"),
                 Rec::Malformed(_) => vfail!(o, "recover_id_secret wrote malformed output on a degenerate pair"),
+                Rec::Ffi(e) => vfail!(o, "recover_id_secret on a degenerate pair: {e}"),
             }
         }
     }
